@@ -137,7 +137,12 @@ def main(chk, a, tier, seed):
             rmis = []
             for o in routs:
                 rmis += o.get("found") or []
-            extra_cov = {"race_monitor": {"executions": sum(o["executions"] for o in routs), "cpu_counts": [1, 2, 4, 16], "races_reported": len(races),
+            own = {}
+            for o in routs:
+                for k, v in (o.get("probes") or {}).items():
+                    if k.startswith("race-monitor"):
+                        own[k] = own.get(k, 0) + v
+            extra_cov = {"race_monitor": {"executions": sum(o["executions"] for o in routs), "cpu_counts": [1, 2, 4, 16], "races_reported": len(races), "own_cases": own,
                                           "note": "auxiliary monitor: the pristine tool, go test -race, real goroutines under taskset, schedule not controlled, same plan and oracle"}}
             outs.append({"found": rf + rmis, "cases": 0, "executions": 0, "steps": 0, "choices": 0})
         return chk.finish(prop, tier, seed, t0, outs, istats, a, components=COMPONENTS[prop], rule=RULE[prop], extra_cov=extra_cov)
